@@ -1,6 +1,7 @@
 package checks
 
 import (
+	"os"
 	"bytes"
 	"context"
 	"errors"
@@ -117,6 +118,9 @@ func (s *scanSim) SendRPC(call hrpc.Call) (proto.Message, error) {
 		return nil, err
 	}
 	ri := s.regionIdx(call.Key())
+	if os.Getenv("VERIF_DEBUG") != "" {
+		fmt.Fprintf(os.Stderr, "scan request key=%q start=%q -> region %d\n", call.Key(), sc.StartRow(), ri)
+	}
 	call.SetRegion(s.regs[ri])
 	return s.serve(sc.ToProto().(*pb.ScanRequest), ri)
 }
@@ -513,6 +517,8 @@ func scanKeySets(thorough bool) []keySet {
 		{[]string{"a", "b", "c"}, []string{"", "a", "b", "c", "d"}, [][]string{nil, {"b"}, {"c"}, {"b", "c"}}},
 		{[]string{"a", "a\x00", "b"}, []string{"", "a", "a\x00", "b", "b\x00"}, [][]string{{"a\x00"}, {"b"}, {"a\x00", "b"}}},
 		{[]string{"a\xff", "b", "b\x00\x00"}, []string{"", "a\xff", "b", "b\x00", "b\x00\x00", "c"}, [][]string{{"b"}, {"b\x00"}, {"b", "b\x00\x00"}}},
+		// the smallest keys there are: a region that starts at 0x00 has no row before it
+		{[]string{"\x00", "\x00\x00", "a"}, []string{"", "\x00", "\x00\x00", "a", "b"}, [][]string{{"\x00"}, {"\x00\x00"}, {"\x00", "a"}}},
 	}
 	if thorough {
 		ks = append(ks, keySet{[]string{"a", "b", "c", "d"}, []string{"", "a", "b", "bb", "c", "d", "e"}, [][]string{nil, {"b"}, {"bb"}, {"b", "c"}, {"b", "c", "d"}, {"bb", "d"}}})
@@ -545,7 +551,7 @@ func c06Units(thorough bool) []*explore.Unit {
 					for _, start := range ks.limits {
 						for _, stop := range ks.limits {
 							for _, rev := range []bool{false, true} {
-								if rev && start == "" && !(ki == 0 && ncells == cellsOpts[0]) {
+								if rev && start == "" && ncells != cellsOpts[0] {
 									// a reversed scan without a start row is an open known finding
 									// (judged in a small family only)
 									continue
